@@ -146,6 +146,9 @@ def _alphabet():
     A["A[idx,idx]"] = ("op", lambda A_, _, p: A_[p.owned["idx"], p.owned["idx"]])
     A["inv(A,CG())"] = ("op", lambda A_, _, p: L.inv(cola.PSD(A_), L.CG(tol=1e-10, max_iters=60)))
     A["inv(A,GMRES())"] = ("op", lambda A_, _, p: L.inv(A_, L.GMRES(tol=1e-10, max_iters=6)))
+    A["exp(A,Lanczos())"] = ("op", lambda A_, _, p: L.exp(cola.PSD(A_), L.Lanczos(max_iters=6, tol=1e-12)))
+    A["sqrt(A,Arnoldi())"] = ("op", lambda A_, _, p: L.sqrt(A_, L.Arnoldi(max_iters=4, tol=1e-12)))
+    A["pinv(A,CG())"] = ("op", lambda A_, _, p: L.pinv(A_, L.CG(tol=1e-10, max_iters=60)))
     A["A.to(None,f8)"] = ("op", lambda A_, _, p: A_.to(None, np.float64) if not isinstance(A_, ops.Identity) else A_.to(None))
     A["inv(A)@b"] = ("op+vec", lambda A_, b, p: L.inv(A_) @ b)
     A["solve(A,b)"] = ("op+vec", lambda A_, b, p: L.solve(A_, b))
@@ -544,10 +547,10 @@ def cases(tier, seed):
         k2 = kinds[o2]
         flow2.append((o2, "prev", "own"))
         if k2 in ("op+vec", "op+mat"):
-            for a in (pool if tier == "thorough" else ["Dense", "Identity", "Kronecker", "Generic"]):
+            for a in (pool if tier == "thorough" else ["Dense", "Identity", "Householder"]):
                 flow2.append((o2, a, "prev"))
             flow2.append((o2, "prev", "prev"))
-    firsts = ev1 if tier == "thorough" else [e for e in ev1 if e[1] in ("Dense", "Identity", "ScalarMul", "Permutation", "Kronecker", "Householder")]
+    firsts = ev1 if tier == "thorough" else [e for e in ev1 if e[1] in ("Dense", "Identity", "Permutation", "Kronecker")]
     for e1 in firsts:
         for e2 in flow2:
             out.append(["SEQ", [list(e1), list(e2)], False])
@@ -591,7 +594,7 @@ def _alphabet_names():
 ALPHA_KINDS = {
     "A@x": "op+vec", "x@A": "op+vec", "A@X": "op+mat", "A@xc": "op", "A.T": "op", "A.H": "op", "to_dense": "op", "-A": "op", "2.5*A": "op", "A+Diag": "op",
     "A@Diag": "op", "Identity@A": "op", "kron(A,Id2)": "op", "PSD(A)": "op", "flatten-unflatten": "op", "A[1,2]": "op", "A[2]": "op", "A[idx,:]": "op",
-    "A[1:3,::2]": "op", "A[0:2,0:2]": "op", "A[idx,idx]": "op", "inv(A,CG())": "op", "inv(A,GMRES())": "op", "A.to(None,f8)": "op", "inv(A)@b": "op+vec", "solve(A,b)": "op+vec", "inv(A,CG(x0))@b": "op+vec", "inv(A,GMRES(x0))@b": "op+vec",
+    "A[1:3,::2]": "op", "A[0:2,0:2]": "op", "A[idx,idx]": "op", "inv(A,CG())": "op", "inv(A,GMRES())": "op", "exp(A,Lanczos())": "op", "sqrt(A,Arnoldi())": "op", "pinv(A,CG())": "op", "A.to(None,f8)": "op", "inv(A)@b": "op+vec", "solve(A,b)": "op+vec", "inv(A,CG(x0))@b": "op+vec", "inv(A,GMRES(x0))@b": "op+vec",
     "pinv(A)@b": "op+vec", "diag(A)": "op", "diag(A,1)": "op", "trace(A)": "op", "trace(A,Hutch)": "op", "logdet(A)": "op", "exp(A)@v": "op+vec",
     "sqrt(A,Lanczos)@v": "op+vec", "exp(A,Arnoldi)@v": "op+vec", "eig(A,2)": "op", "svd(A,2)": "op", "cholesky(A)": "op", "plu(A)": "op",
     "lanczos(A,v)": "op+vec", "arnoldi(A,v)": "op+vec", "NystromPrecond(A)": "op",
